@@ -15,4 +15,6 @@ def run(P, R, L):
     R.clause("TS-2", "LogWriter::append types every fragment the way the reader's automaton expects (Full/First/Middle/Last from the first/last "
              "flags), clears `first` after every fragment, and cuts chunks as min(remaining, room in the block)")
     K.ts2_writer_fragment_types(P, R, L)
+    R.clause("GRD-18", "short reads are noticed: outside the file-system layer every read is read_exact or has its byte count compared with the expected length")
+    K.grd18_short_reads(P, R, L)
     R.not_decided += ["block-boundary arithmetic beyond the guards above: fragment sizes, trailer padding width, offset bookkeeping after each emit (value level)"]
